@@ -9,6 +9,9 @@ import (
 	"encoding/json"
 	"fmt"
 	"os"
+	"runtime"
+	"sync"
+	"time"
 	"unsafe"
 )
 
@@ -20,6 +23,7 @@ type vVector struct {
 	Kind   string         `json:"kind"`
 	Values []uint64       `json:"values"`
 	Known  []string       `json:"known"`
+	Schedule []vSchedStep `json:"schedule"`
 }
 
 type vPruned struct{ why string }
@@ -181,3 +185,186 @@ func vAllocLimits(bytes, count int) {}
 
 // vRaceMode: native replay of a footprint counterexample under the race detector.
 func vRaceMode() bool { return os.Getenv("VERIF_RACE") != "" }
+
+// ---- C16 events: natively these are schedule points (see zz_verif sched) ----
+var vEventHook func(name string)
+
+func vEventBegin(srv any) {}
+func vEventEnd()          {}
+func vMark(name string) {
+	if vEventHook != nil {
+		vEventHook(name)
+	}
+	vSchedMark(name)
+}
+
+// ---------------------------------------------------------------------------
+// Native schedule controller (C16 replay). The instrumented build calls
+// vSchedPoint() before every visible synchronisation operation; harness
+// marks call it through vMark. The controller releases threads in the order
+// of the solver's schedule: a thread runs from one point to its next.
+// ---------------------------------------------------------------------------
+
+type vSchedStep struct {
+	Thread string `json:"thread"`
+	Op     string `json:"op"`
+	Obj    string `json:"obj"`
+}
+
+type vController struct {
+	mu       sync.Mutex
+	order    []vSchedStep
+	pos      int
+	waiting  map[string]chan struct{}
+	names    map[int64]string
+	freeRun  bool
+	unknown  string // name given to the one goroutine the library itself starts
+	trace    []string
+	running  int
+	closeRet bool
+	busy      string
+	busySince time.Time
+	finished  map[string]bool
+}
+
+var vCtl *vController
+
+func vGoid() int64 {
+	var buf [64]byte
+	n := runtime.Stack(buf[:], false)
+	// "goroutine 123 [running]:"
+	var id int64
+	for _, c := range buf[10:n] {
+		if c < '0' || c > '9' {
+			break
+		}
+		id = id*10 + int64(c-'0')
+	}
+	return id
+}
+
+func (c *vController) register(name string) {
+	c.mu.Lock()
+	c.names[vGoid()] = name
+	c.mu.Unlock()
+}
+
+func (c *vController) me() string {
+	id := vGoid()
+	if n, ok := c.names[id]; ok {
+		return n
+	}
+	c.names[id] = c.unknown
+	return c.unknown
+}
+
+// tryRelease lets the next scheduled thread go if it is waiting, but only
+// once the previously released thread has completed its operation (it has
+// arrived at its next point, has finished, or has been silent for 100 ms,
+// i.e. it is blocked for real or gone). Caller holds mu.
+func (c *vController) tryRelease() {
+	if c.freeRun {
+		for n, ch := range c.waiting {
+			close(ch)
+			delete(c.waiting, n)
+		}
+		return
+	}
+	if c.pos >= len(c.order) {
+		c.freeRun = true
+		c.tryRelease()
+		return
+	}
+	if c.busy != "" {
+		if _, arrived := c.waiting[c.busy]; !arrived && !c.finished[c.busy] && time.Since(c.busySince) < 100*time.Millisecond {
+			return
+		}
+		c.busy = ""
+	}
+	next := c.order[c.pos].Thread
+	if ch, ok := c.waiting[next]; ok {
+		c.pos++
+		c.trace = append(c.trace, next)
+		delete(c.waiting, next)
+		c.busy, c.busySince = next, time.Now()
+		close(ch)
+	}
+}
+
+// pump keeps the schedule moving when no thread arrives (threads that ended).
+func (c *vController) pump(stop chan struct{}) {
+	t := time.NewTicker(5 * time.Millisecond)
+	defer t.Stop()
+	for {
+		select {
+		case <-stop:
+			return
+		case <-t.C:
+			c.mu.Lock()
+			c.tryRelease()
+			c.mu.Unlock()
+		}
+	}
+}
+
+func (c *vController) finish(name string) {
+	c.mu.Lock()
+	c.finished[name] = true
+	c.tryRelease()
+	c.mu.Unlock()
+}
+
+func (c *vController) point() {
+	c.mu.Lock()
+	name := c.me()
+	ch := make(chan struct{})
+	c.waiting[name] = ch
+	c.tryRelease()
+	c.mu.Unlock()
+	select {
+	case <-ch:
+	case <-time.After(4 * time.Second):
+		// the schedule cannot be followed (a thread is blocked for real):
+		// fall back to free running so that the test terminates
+		c.mu.Lock()
+		c.freeRun = true
+		c.trace = append(c.trace, "TIMEOUT:"+name)
+		c.tryRelease()
+		c.mu.Unlock()
+	}
+}
+
+func vSchedPoint() {
+	if vCtl != nil {
+		vCtl.point()
+	}
+}
+
+func vSchedMark(name string) {
+	c := vCtl
+	if c == nil || name == "read_message" {
+		return
+	}
+	c.point()
+	c.mu.Lock()
+	defer c.mu.Unlock()
+	switch name {
+	case "handler_start":
+		if c.closeRet {
+			fmt.Println("VERIF-FAIL b-no-handler-after-close-returned")
+			vFailures = append(vFailures, "b-no-handler-after-close-returned")
+		}
+		c.running++
+	case "handler_end":
+		c.running--
+	case "close_returned":
+		c.closeRet = true
+		if c.running > 0 {
+			fmt.Println("VERIF-FAIL c-close-returns-only-after-handlers")
+			vFailures = append(vFailures, "c-close-returns-only-after-handlers")
+		}
+	case "serve_err":
+		fmt.Println("VERIF-FAIL d-serve-returns-nil")
+		vFailures = append(vFailures, "d-serve-returns-nil")
+	}
+}
